@@ -26,3 +26,8 @@ Definition feed_agrees (c : feed_case) : bool :=
   let '(short, long) := run_feed n cs parts in
   list_eqb kc_eqb short s1 && list_eqb kc_eqb long sn &&
   match get_candles n short long with Some r => list_eqb kc_eqb r got | None => false end.
+
+(* the candle-generation helper services.candle._get_generated_candles(timeframe, 1m candles): the completed windows only, each the aggregation
+   of its aligned window (a trailing part of a window is left out) *)
+Definition helper_is_aggregation (c : view_case) : bool :=
+  let '(n, short, got) := c in list_eqb (option_eqb kc_eqb) (map Some got) (firstn (length short / n) (aggs n short)).
